@@ -44,7 +44,9 @@ class FortranRegularExpressions:
         r"[ ]*([a-z_]\w*)[ ]*(?::[ ]*([a-z_]\w*)[ ]*)?\)[ ]*([a-z_]\w*)?", I
     )
     END_PRO: Pattern = compile(r"(MODULE)?[ ]*PROCEDURE", I)
-    BLOCK: Pattern = compile(r"[ ]*([a-z_]\w*[ ]*:[ ]*)?(?:BLOCK|CRITICAL)(?!\w)", I)
+    BLOCK: Pattern = compile(
+        r"[ ]*([a-z_]\w*[ ]*:[ ]*)?(?:BLOCK(?![ ]*[=(%])|CRITICAL)(?!\w)", I
+    )
     END_BLOCK: Pattern = compile(r"BLOCK|CRITICAL", I)
     DO: Pattern = compile(r"[ ]*(?:[a-z_]\w*[ ]*:[ ]*)?DO([ ]+[0-9]*|$)", I)
     END_DO: Pattern = compile(r"DO", I)
